@@ -40,11 +40,11 @@ ASSUMPTIONS = [
 ]
 SHARDS = {'quick': 4, 'thorough': 16}
 TIMEOUT = {'quick': 900, 'thorough': 3600}
-FLOORS = {'fault_fired:overlapping-copies': 60, 'fault_fired:ackloss': 30, 'faults_fired': 300, 'request_kinds': 6, 'fast_path_submissions': 20, 'multi_bunch_submissions': 20, 'later_updates': 20, 'job_id_agreements_checked': 300, 'fault_free_runs_judged': 100,
+FLOORS = {'fault_fired:overlapping-calls-inside-a-procedure': 30, 'fault_fired:overlapping-copies': 60, 'fault_fired:ackloss': 30, 'faults_fired': 300, 'request_kinds': 6, 'fast_path_submissions': 20, 'multi_bunch_submissions': 20, 'later_updates': 20, 'job_id_agreements_checked': 300, 'fault_free_runs_judged': 100,
           'consecutive_fast_path_updates_from_one_batch_object': 4}
 
 
-ACTIONS = ('lost', 'drop', 'dup', 'interleave', 'overlap1', 'overlap2', 'overlap3', 'overlap4', 'ackloss')
+ACTIONS = ('lost', 'drop', 'dup', 'interleave', 'overlap1', 'overlap2', 'overlap3', 'overlap4', 'ackloss', 'sqloverlap')
 
 
 def kind_of(method, path):
@@ -130,7 +130,7 @@ class Transport:
         if action == 'interleave':
             self.fired.append((idx, kind, action))
             await self.on_interleave()
-        if action.startswith('overlap'):
+        if action.startswith('overlap') and action != 'sqloverlap':
             # the client's re-send (after a timeout) arrives while the first copy is still being served: at the k-th time the
             # first copy asks the pool for a connection (never inside one of its open transactions) the second copy is served
             # to completion, then the first copy carries on; the client reads the first copy's answer
@@ -156,6 +156,29 @@ class Transport:
             finally:
                 if aiomysql.HOOKS.get('delay') is delay:
                     aiomysql.HOOKS.pop('delay', None)
+        elif action == 'sqloverlap':
+            # the re-sent copy's stored-procedure CALL runs to completion while the first copy's CALL is between the
+            # statements it executes before its START TRANSACTION (autocommit, no locks held) and the transaction itself
+            # (minimysql preemption point; a procedure that opens its transaction first is not affected)
+            eng = self.fe.w.engine
+            st = {'ran': False}
+
+            def preempt(conn, routine):
+                if st['ran']:
+                    return
+                st['ran'] = True
+                self.fired.append((idx, kind, action))
+                sql, args = conn.top_statement
+                c2 = eng.connect()
+                try:
+                    c2.execute(sql, args)
+                except Exception:  # the overtaking copy's own failure is an answer nobody reads
+                    c2.rollback()
+            eng.preempt_hook = preempt
+            try:
+                r = await deliver()
+            finally:
+                eng.preempt_hook = None
         elif action == 'ackloss':
             # the connection to the database drops after the server applied a COMMIT of this request but before the
             # acknowledgement arrives (pymysql 2013): gear.database.retry_transient_mysql_errors re-runs the transaction function
@@ -362,7 +385,7 @@ def run(ctx):
             ctx.case(sample={'requests': kinds, 'plan': desc['plan']}, key=(str(sub), str(sorted(plan.items()))), nontrivial=bool(fired))
             ctx.count('faults_fired', len(fired))
             for f in fired:
-                ctx.count('fault_fired:' + ('overlapping-copies' if f[2].startswith('overlap') else f[2]))
+                ctx.count('fault_fired:' + ('overlapping-calls-inside-a-procedure' if f[2] == 'sqloverlap' else 'overlapping-copies' if f[2].startswith('overlap') else f[2]))
                 ctx.seen('fault_sites', f'{f[1]}:{f[2]}')
             n_foreign = sum(u[3] for u in s['updates'] if u[7] and u[6])  # jobs of foreign updates that were really committed
             if err is not None:
